@@ -24,24 +24,34 @@ fn thread_b() {
     }
 }
 
+// The pre-emption point is case-split, one harness per position (DESIGN 2.6-3): the factory stores addresses as integers
+// and turns them back into references, which CBMC can only follow cheaply when the schedule is concrete. The split is
+// complete: `SITES` counts the scheduling points thread A's lookup really passes and every harness asserts that it is
+// below the number of positions instantiated.
+static mut SITES: u32 = 0x263;
+static mut TARGET: u32 = 0x264;
+const POSITIONS: u32 = 8;
+
 fn hook(site: u32) {
     unsafe {
-        if !B_DONE && kani::any::<bool>() {
+        let k = SITES;
+        SITES += 1;
+        if !B_DONE && k == TARGET {
             B_AT_SITE = site;
             thread_b();
         }
     }
 }
 
-/// Two threads first ask for the same named object: both get the same instance and a later lookup
-/// returns that instance.
-#[kani::proof]
-#[kani::unwind(6)]
-fn c26_two_first_lookups() {
+/// Two threads first ask for the same named object; thread B's whole lookup runs at scheduling point `target` of
+/// thread A's lookup (or after it when A passes fewer points): both get the same instance and a later lookup returns it.
+fn two_first_lookups(target: u32) {
     unsafe {
         B_DONE = false;
         B_PTR = 0;
         B_AT_SITE = 0;
+        SITES = 0;
+        TARGET = target;
     }
     verif_rt::set_yield_hook(Some(hook));
     let a: &Bean = BeanFactory::get_or_default::<Bean>("b");
@@ -53,12 +63,31 @@ fn c26_two_first_lookups() {
     let a_ptr = std::ptr::from_ref(a) as usize;
     let later = BeanFactory::get_bean::<Bean>("b").map(|b| std::ptr::from_ref(b) as usize);
     unsafe {
+        kani::assert(SITES <= POSITIONS, "the case split covers every scheduling point of the lookup");
         kani::assert(a_ptr == B_PTR, "threads that first ask for the same named object at the same time receive the same instance");
         kani::assert(later == Some(a_ptr), "the instance handed out stays the one later lookups return");
     }
-    kani::cover!(preempted, "thread B ran inside thread A's lookup");
-    kani::cover!(!preempted, "thread B ran after thread A's lookup");
+    kani::cover!(true, "reached");
 }
+
+macro_rules! c26_preempt_at {
+    ($name:ident, $k:expr) => {
+        #[kani::proof]
+        #[kani::unwind(6)]
+        fn $name() {
+            two_first_lookups($k);
+        }
+    };
+}
+c26_preempt_at!(c26_first_lookups_preempt_at_0, 0);
+c26_preempt_at!(c26_first_lookups_preempt_at_1, 1);
+c26_preempt_at!(c26_first_lookups_preempt_at_2, 2);
+c26_preempt_at!(c26_first_lookups_preempt_at_3, 3);
+c26_preempt_at!(c26_first_lookups_preempt_at_4, 4);
+c26_preempt_at!(c26_first_lookups_preempt_at_5, 5);
+c26_preempt_at!(c26_first_lookups_preempt_at_6, 6);
+c26_preempt_at!(c26_first_lookups_preempt_at_7, 7);
+c26_preempt_at!(c26_first_lookups_one_after_the_other, 1000);
 
 /// Sequential sanity: repeated lookups return one instance; init_bean does not replace it.
 #[kani::proof]
@@ -71,4 +100,26 @@ fn c26_sequential_lookups() {
     kani::assert(a == b, "a second lookup returns the first instance");
     kani::assert(c == Some(a), "init_bean does not replace an existing instance");
     kani::cover!(true, "reached");
+}
+
+/// Names that differ in ANY byte (symbolic position in a 40-byte name) denote different objects: each name gets its own
+/// instance, lookups by either name return that name's instance, and re-initialising one does not touch the other.
+#[kani::proof]
+#[kani::unwind(43)]
+fn c26_names_that_differ_give_different_instances() {
+    const L: usize = 40;
+    let n1 = [b'a'; L];
+    let mut n2 = [b'a'; L];
+    let p: usize = kani::any();
+    kani::assume(p < L);
+    n2[p] = b'b';
+    let (s1, s2) = unsafe { (std::str::from_utf8_unchecked(&n1), std::str::from_utf8_unchecked(&n2)) };
+    let a = std::ptr::from_ref(BeanFactory::get_or_default::<Bean>(s1)) as usize;
+    let b = std::ptr::from_ref(BeanFactory::get_or_default::<Bean>(s2)) as usize;
+    kani::assert(a != b, "different names give different instances");
+    let a2 = BeanFactory::get_bean::<Bean>(s1).map(|x| std::ptr::from_ref(x) as usize);
+    let b2 = BeanFactory::get_bean::<Bean>(s2).map(|x| std::ptr::from_ref(x) as usize);
+    kani::assert(a2 == Some(a) && b2 == Some(b), "each name keeps returning its own instance");
+    kani::cover!(p == L - 1, "names that differ only in their last byte");
+    kani::cover!(p == 0, "names that differ in their first byte");
 }
